@@ -273,8 +273,8 @@ def c03(F, R, tier):
     import c01rt
     G(c01rt.check, F, R, tier, "C03")
 @prop("C14",
-      technique="static: loop-bound rule and state write-set/ordering rule on typed HIR; tolerance predicates evaluated from their HIR over value pairs around the tolerance",
-      explanation="THIN CLAIM (termination and state discipline). Decides (L) both solve loops are `while iteration < limit` and every arm of the step match either increments the counter or returns, leaving by the limit reports IterationLimitReached; (T-PRED) the six float predicates, evaluated from their HIR on 169 value pairs around the 1e-5 tolerance, satisfy: exactly one of lt/eq/gt, le = lt|eq, ge = gt|eq, ne = !eq, lt(a,b) = gt(b,a); (W-STATE) pivot writes all five state components with the documented formulas, eliminates with factors a[i][h]/pivot and c[h]/pivot, skips the pivot row, and normalises the pivot row only after all other updates; optimality test (all costs float_ge 0) and entering rule (costs float_lt 0, non-basic) are complementary; Bland's rule is enabled by the stall counter and picks the smallest index; the ratio test runs over positive entries with smallest-basis-index tie break; a step tests optimality first. NOT decided: that the equation system stays equivalent, the basis stays feasible, the objective is monotone, optimal/unbounded reports are genuine -- numeric invariants of the tableau. This property is essentially dynamic.")
+      technique="static: loop-bound rule and state write-set/ordering rule on typed HIR; tolerance predicates evaluated from their HIR over value pairs around the tolerance; abstract interpretation of into_tableau + Tableau::solve_step_by_step from their typed HIR on a bounded family of programs, with the tableau invariants checked after every recorded pivot (no compiled code of the crate runs)",
+      explanation="PARTIAL (termination, state discipline, step invariants on a bounded family). Decides (L) both solve loops are `while iteration < limit` and every arm of the step match either increments the counter or returns, leaving by the limit reports IterationLimitReached; (T-PRED) the six float predicates, evaluated from their HIR on 169 value pairs around the 1e-5 tolerance, satisfy: exactly one of lt/eq/gt, le = lt|eq, ge = gt|eq, ne = !eq, lt(a,b) = gt(b,a); (W-STATE) pivot writes all five state components with the documented formulas, eliminates with factors a[i][h]/pivot and c[h]/pivot, skips the pivot row, and normalises the pivot row only after all other updates; optimality test (all costs float_ge 0) and entering rule (costs float_lt 0, non-basic) are complementary; Bland's rule is enabled by the stall counter and picks the smallest index; the ratio test runs over positive entries with smallest-basis-index tie break; a step tests optimality first. (STEP-INVARIANT) the crate's step-wise entry point (StandardLinearModel::into_tableau, then Tableau::solve_step_by_step, which records the tableau before every pivot) is evaluated from its typed HIR with IEEE doubles on the SIMPLEX-EQUIV family; for every tableau T_k of every sequence: the basic columns are unit columns with reduced cost 0 and no column is basic twice, the right-hand sides are non-negative, the basic solution of T_k satisfies the equations of T_0 and the basic solutions of all tableaux of the sequence satisfy the equations of T_k (equivalence on the points the method visits), the objective of T_0 at the basic solution never gets worse from one pivot to the next, and when the method stops with a solution no reduced cost is negative (1e-6 relative). Independent of how current_value is signed or stored; undecided when the step record is laid out differently. NOT decided: these invariants outside the family (they are numeric facts about every tableau), cycling beyond the Beale / Chvatal examples.")
 def c14(F, R, tier):
     import c14 as mod
     G(mod.check, F, R)
@@ -295,23 +295,23 @@ POLICY = (" VERDICTS: every obligation is discharged, violated (a counterexample
           " the evaluated rules named below decide. ENGINE-SELFTEST: the interpreter behind the evaluated rules is checked on every run against a fixture crate whose results are known.")
 EXTRA = {
     "C18": "(CAST-SIGN) every cast of a signed integer to an unsigned type sits under a test that the value is not negative (a conjunct `x >= 0` of an enclosing if, the else of / the code after a diverging `if x < 0`): 3 casts.",
-    "C06": "(EXPAND-EQUIV addition) ten constant-arithmetic programs (quotients of whole numbers in a `let`, a domain bound, an index expression, an iteration). Quantified declarations that produce one name twice: accepted when the domains agree, rejected like the hand-unrolled text when they differ.",
+    "C06": "(EXPAND-EQUIV addition) ten constant-arithmetic programs (quotients of whole numbers in a `let`, a domain bound, an index expression, an iteration). Quantified declarations that produce one name twice: accepted when the domains agree, rejected like the hand-unrolled text when they differ. (EXPAND-EQUIV addition) set functions on operands of different numeric kinds (a range against an array literal, whole numbers against an array with a fractional entry): elements are compared by value.",
     "C11": "(ROUND-TRIP addition) quoted string indexes that spell a bound name (`x_{\"i\"}` inside `sum(i in ..)`); an identifier index equals the literal fragment of the same text only when the program binds that name nowhere. Explicit range(..) calls whose inclusive flag is a name or an expression. Graph literals with edge weights 0, 0.0 and negative ones.",
     "C02": "(COMPILE-EQUIV additions) the shared-operand models of C01: the best linear objective over the auxiliaries is the source objective also when an operand's auxiliary serves a one-sided and an exact position. The pruned-operand-first and nested-abs models of C01.",
     "C01": "(COMPILE-EQUIV additions) one nonlinear operand used several times in positions that ask different things of its auxiliary (one-sided in the objective, exact in a row; both signs in one sum; <=, >= and = rows on the same operand), and rows trivialised by a bound they imply themselves next to a contradiction (the source is infeasible everywhere: so must the linear model be). Near-touching operand ranges of a min / max (an operand may only be left out when it can never be the extreme), the declared end points are grid points; logic operators over operands that are affine in a Boolean but not 0/1 valued (compiled to the truthiness reading or refused). Three-operand min / max of which pruning removes an operand written before the others; abs whose operand contains another abs.",
     "C03": "(SIMPLEX-EQUIV, BRIDGE-EQUIV shared with C04/C05) verdict and optimum of the crate's simplex path equal the exact answer on the small-program family. (REWRITE-SEM, shared with C10) Exp::simplify / flatten, evaluated from their HIR, preserve the value of every enumerated arithmetic and logic tree (constant operands on either side included). (EXPAND-EQUIV, constant group, shared with C06) ten programs whose constants are defined by arithmetic (quotients of whole numbers, in a `let`, a domain bound, an index expression, an iteration) compile to the model of the text with the numbers written out. (COMPILE-EQUIV, refusals, shared with C01) none of the ~300 well-formed models over bounded domains is refused by the compile step with anything but the missing-bounds / non-binary-operand errors.",
-    "C04": "(BRIDGE-EQUIV) both MicroLP bridges evaluated against a recording stand-in for the MicroLP API on 12 models: one column per variable in order with its kind, declared bounds and objective coefficient (also when the domain map is ordered differently from the variable list), rows, direction, each variable reported with its own column's value in its kind, objective plus constant, row activities. (GOODLP-BRIDGE-EQUIV) the same for the good_lp / Clarabel bridge. (SIMPLEX-EQUIV) the point the slow simplex returns names every variable once, lies in every declared range, satisfies every row and reproduces the reported value, on 42 (thorough 186) programs. (SIMPLEX-EQUIV addition) variables of the model whose names start with `$` come back with a value.",
+    "C04": "(BRIDGE-EQUIV) both MicroLP bridges evaluated against a recording stand-in for the MicroLP API on 12 models: one column per variable in order with its kind, declared bounds and objective coefficient (also when the domain map is ordered differently from the variable list), rows, direction, each variable reported with its own column's value in its kind, objective plus constant, row activities. (GOODLP-BRIDGE-EQUIV) the same for the good_lp / Clarabel bridge. (SIMPLEX-EQUIV) the point the slow simplex returns names every variable once, lies in every declared range, satisfies every row and reproduces the reported value, on 42 (thorough 186) programs. (SIMPLEX-EQUIV addition) variables of the model whose names start with `$` come back with a value. (SIMPLEX-EQUIV addition) half-bounded ranges whose finite end is the binding one at the optimum: the returned point lies in the declared range.",
     "C05": "(SIMPLEX-EQUIV) solve_real_lp_problem_slow_simplex evaluated from typed HIR with IEEE doubles on 42 (thorough 186) programs of 1-7 variables -- bounded / free / half-bounded ranges, two-phase starts, redundant and degenerate rows, narrow infeasibility next to large right-hand sides, unbounded rays, ratio ties at small and large magnitude, tiny pivot-column entries, Beale's and Chvatal's cycling examples: the verdict is the exact one (Fourier-Motzkin over the rationals) and the optimum agrees to 1e-6; during development the evaluated path gave bit-identical values to the compiled crate on all programs. (BRIDGE-EQUIV / GOODLP-BRIDGE-EQUIV) solver errors and statuses map to the same verdicts. (SIMPLEX-EQUIV addition) programs with as many own columns as rows but not one per row (an = / >= / negative <= row without a column of its own). Infeasible programs with a variable that occurs in no row and improves the objective without limit (infeasible, not unbounded); two-phase starts whose first phase meets a structural row with the smallest ratio before an artificial one; thorough: 400 pseudo-random small equality systems (fixed seed). (GOODLP-BRIDGE-EQUIV addition) at Clarabel's (Almost)DualInfeasible the solution vector is a certificate, not a point: the scripted one violates rows and ranges and the verdict stays Unbounded. (SIMPLEX-EQUIV addition) phase one ending with an artificial variable basic at level zero in a later row whose leaving column occurs in an earlier row.",
     "C07": "(BOUNDS-SOUND additions) tiny coefficients on very wide variables; the published domain is held to exact containment of feasible end points in the inexact-arithmetic family. (BOUNDS-SOUND addition) eleven rows of four to six variables (every relation, mixed signs, integer ranges, a second row), sound on the corner/middle grid of the box. T-IVL-SEM / BOUNDS-SOUND: min and max of three and four operands with the deciding operand in the middle, over three variables of different ranges (forward enclosure, reverse rules, published domains).",
     "C08": "(WELL-FORMED-SRC) 22 source programs compiled by the emulated front end and compile step: repeated and generated-looking row names stay distinct with the first use kept, cancelling / multiplying infinities are refused or leave finite numbers only, missing-bounds errors name exactly the variables without two finite ends, every used variable is a sorted, duplicate-free column. (WELL-FORMED-SRC addition, collisions) for every auxiliary name the lowering generates on five base programs (exact abs / max / min, logic value, logic assertion), the program is compiled again with a user declaration of that very name as IntegerRange(3, 7), once used in a row and once never used: it is refused, or the name keeps the user's domain. Contents: a variable that occurs only under a zero factor (`0 * y`, `0y`, a zero entry of a cost table, `y * 0`, `y - y`) is still a column of the model.",
     "C09": "(CONVERT-EXP addition) a binary minus glued to its operands (`2(y)-3`, `7-2`, `x-1`) is the binary minus. (CONVERT-EXP additions) implicit products with negated parenthesised factors (`(-2)(-3)`, `(-x)(-y)`, `12 / (-2)(-3)`, ...); for the documented forms a tree other than the written one is accepted when it has the same value on every probe assignment. (G-BOUNDARY addition) every rule below exp_leaf that matches only words (the boolean literal) is atomic with the identifier boundary; (CONVERT-EXP addition) names that start with a keyword or a literal word (truex, falsey, notx, andy, orz, xory, iffy, minx, inx) are names.",
     "C10": "(REWRITE-HAZARD addition) divisions by zero / by a variable hidden in abs, min, max under a zero factor, a zero numerator or a self-difference must survive simplify and flatten. (REWRITE-SEM addition) abs / min / max over operands with signed constant factors (-2x, x*-2, (0-2)x, x/-2, c - x, c(x+y)) and scaled abs / min / max: about 480 more trees.",
     "C12": "(RECOMPILE-EQUIV) 91 (thorough 667) programs: the printed linear model is accepted by grammar, converters, type checker and transformer and compiles to the very same text again, incl. names that collide with index fragments. (LINEAR-ROUND-TRIP addition) magnitudes up to 1e30. Known findings: empty `s.t.` section, non-idempotent bound propagation, zero-coefficient variable dropped on recompilation. (LINEAR-ROUND-TRIP addition) models assembled through the public API (usage marks all zero). (LINEAR-ROUND-TRIP addition) domains that differ by less than 1e-5 at both ends are different domains.",
-    "C13": "(SIMPLEX-EQUIV shared) the standard form is exercised end to end by the simplex family.",
-    "C14": "(SIMPLEX-EQUIV) see C05; all clauses above recognise source text of the pivot / ratio test / canonical start and are undecided when it is written differently. The step-wise invariants (monotone objective per pivot) are NOT decided. Two-phase starts whose first phase meets a structural row with the smallest ratio before an artificial one. Phase one ending with an artificial variable basic at level zero in a later row whose leaving column occurs in an earlier row.",
-    "C15": "(BRIDGE-EQUIV) 8 option sets (none, gap, limit, both, zero / negative / NaN gap) x 3 solver statuses: mip_gap and time_limit reach SolveOptions unchanged, nothing else differs from SolveOptions::default() (microlp 0.5), Optimal -> Optimal, Feasible -> Feasible, Interrupted -> Err(LimitReached) whatever the options. The status scripts run on a maximised and a minimised model with the solver's proven bound away from the incumbent (Stats::best_bound modelled): Feasible stays Feasible. The builder's MicroLP solver: with_mip_gap / with_time_limit in either order, repeated, alone -- every option set reaches SolveOptions.",
-    "C16": "(FRONT-DOOR-EQUIV addition) constants written in the text or supplied through the API: the type checker accepts and the transformer compiles the same model when a text constant is defined from an API constant. (FRONT-DOOR-EQUIV addition) objectives without variables (a bare number, a constant expression, x - x) keep direction and constant through the builder as in the text. Builder call orders now include rows added one by one followed by two with_all batches.",
-    "C17": "(LP-ROUND-TRIP addition) coefficients, right-hand sides, offsets and bounds up to 1e30 and at 2^63. Models assembled through the public API (usage marks all zero) export like compiled ones.",
+    "C13": "(SIMPLEX-EQUIV shared) the standard form is exercised end to end by the simplex family. (STD-EQUIV addition) range ends that differ from 0 or from each other by less than the crate's comparison tolerance (4e-6, [1, 1.000004]) are bounds all the same: their rows are there.",
+    "C14": "(SIMPLEX-EQUIV) see C05; all clauses above recognise source text of the pivot / ratio test / canonical start and are undecided when it is written differently. Two-phase starts whose first phase meets a structural row with the smallest ratio before an artificial one. Phase one ending with an artificial variable basic at level zero in a later row whose leaving column occurs in an earlier row.",
+    "C15": "(BRIDGE-EQUIV) 8 option sets (none, gap, limit, both, zero / negative / NaN gap) x 3 solver statuses: mip_gap and time_limit reach SolveOptions unchanged, nothing else differs from SolveOptions::default() (microlp 0.5), Optimal -> Optimal, Feasible -> Feasible, Interrupted -> Err(LimitReached) whatever the options. The status scripts run on a maximised and a minimised model with the solver's proven bound away from the incumbent (Stats::best_bound modelled): Feasible stays Feasible. The builder's MicroLP solver: with_mip_gap / with_time_limit in either order, repeated, alone -- every option set reaches SolveOptions. (BRIDGE-EQUIV addition) gaps of every magnitude (5e-324, 1e-9, 1e-6, 1e-4, 0.75, 1, 2.5, infinity, -0.0) reach the solver as given: no floor, ceiling or rounding.",
+    "C16": "(FRONT-DOOR-EQUIV addition) constants written in the text or supplied through the API: the type checker accepts and the transformer compiles the same model when a text constant is defined from an API constant. (FRONT-DOOR-EQUIV addition) objectives without variables (a bare number, a constant expression, x - x) keep direction and constant through the builder as in the text. Builder call orders now include rows added one by one followed by two with_all batches, and an objective replaced by a later call (satisfy then the opposite sense then the model's objective; maximize then satisfy): the last call is the objective.",
+    "C17": "(LP-ROUND-TRIP addition) coefficients, right-hand sides, offsets and bounds up to 1e30 and at 2^63. Models assembled through the public API (usage marks all zero) export like compiled ones. User-written row names that are the labels the exporter generates for the unnamed rows next to them (c2 next to an unnamed second row, c2_1 as well, chains): the exported labels stay unique.",
     "C19": "(TYPE-SOUND addition) elements of union / intersection / difference / zip / enumerate results used in the kind the checker gives them. (TYPE-SOUND addition, scoping) 23 programs that use a name where it is not (yet) bound: an iterator / quantifier / domain quantifier that mentions the name it binds or a later one, a block name used after the block or in a sibling, constants defined from later constants or from iteration names.",
     "C20": "(GOODLP-BRIDGE-EQUIV) solve_real_lp_problem_clarabel -> solve_with_good_lp -> collect_good_lp_duals evaluated against a recording model of good_lp (variables, expressions built with good_lp's overloaded operators, constraints, direction, scripted values / duals / statuses) on 4 models: every named row's shadow price is the dual held for that row's own constraint reference, unchanged (duals of both signs, tiny ones, binding rows with right-hand side 0); unnamed rows are left out; the objective keeps the model's direction and sign; rows keep their expression on the left with the matching comparison. (GOODLP-BRIDGE-EQUIV addition) rows far from unit scale (coefficients 5000 / 1e6 / 5e-4): a row may be handed over at another scale k (relation turned round for k < 0), the reported price must then be k times the solver's dual. Row names with leading underscores, a `$`, a generated-looking suffix are names like any other: their prices are reported.",
 }
